@@ -377,7 +377,12 @@ def chunks(xs, n):
 def replay(rep):
     env.silence_unraisable()
     tier = rep.get("tier", "quick")
-    if rep.get("part", "").endswith("/concurrent-auth"):
+    if rep.get("part", "").startswith("fd-reuse"):
+        from checks import c17_serverclose as c17
+        c17.watch_pool_lines()
+        a = c17.reuse_run("pool", oracle="C16")(rep["choices"], False, None)[1]["violations"]
+        b = c17.reuse_run("pool", oracle="C16")(rep["choices"], False, None)[1]["violations"]
+    elif rep.get("part", "").endswith("/concurrent-auth"):
         watch_server_lines()
         kind = rep["part"].split("/")[1]
         a = concurrent_run(kind)(rep["choices"], False, None)[1]["violations"]
@@ -435,6 +440,24 @@ def main(tier, replay_obj=None):
         ex.stats.states = max(ex.stats.states, ex.stats.executions)
         ex.stats.transitions = max(ex.stats.transitions, ex.stats.executions)
         res.add_explorer("sched/%s/concurrent-auth" % kind, ex)
+    # a client leaving abruptly while a well-behaved one arrives (the kernel recycles descriptor numbers; the pool's
+    # tables are keyed by them): explored with the same scenario and explorer as C17's, oracle = the newcomer is served
+    from checks import c17_serverclose as c17
+    c17.watch_pool_lines()
+
+    def unlisted(sig):
+        return (PID, sig) not in known
+    ex = explore.ParallelExplorer(c17.reuse_run("pool", oracle="C16"), bound=1 if tier == "quick" else 2,
+                                  max_seconds=150 if tier == "quick" else 2500, max_execs=30000 if tier == "quick" else None,
+                                  stop_on_violation=unlisted)
+    ex.explore()
+    best = {}
+    for sig, text, ch in ex.violations:
+        if sig not in best or len(ch) < len(best[sig][1]):
+            best[sig] = (text, ch)
+    ex.violations = [(sg, t, ch) for sg, (t, ch) in sorted(best.items())]
+    res.add_explorer("fd-reuse/pool", ex)
+    res.bounds["fd-reuse/pool"] = ex.stats.bound_completed
     for kind in ("threaded", "pool"):
         for auth in ((False,) if tier == "quick" else (False, True)):
             for name in SCHED_SCRIPTS if tier == "thorough" else SCHED_SCRIPTS[:3]:
